@@ -8,7 +8,7 @@ HOOKS = dict(
 )
 ENGINES = [
     dict(name="graph-smt", path="driver/ + symg/",
-         serves_properties=["C16"],
+         serves_properties=["C16", "C17"],
          kind_free_text="Rust driver linked against /repo's current tree runs the real instantiate/inline/compile/optimize functions and dumps the term DAGs they build; "
                         "a Python interpreter turns each DAG 1:1 into z3 bit-vector terms (inputs, randomness, junk symbolic) and z3/cvc5 decide the property; models are replayed on the real evaluator"),
 ]
@@ -22,8 +22,14 @@ chk("C16", "graph-smt", "other",
     "symbolically executed and the solver shows it equals bvult/bvslt/.../ite on the encoded integers for ALL operand values (unsat), i.e. exhaustive in the operands at every listed width. Not a proof over all widths.",
     G_NOTE, "SMT (z3 QF_BV) equivalence of the real generated circuit vs bit-vector spec, all operands symbolic", "DESIGN.md §5 C16")
 
+chk("C17", "graph-smt", "other",
+    "Bounded symbolic equivalence: BinaryAdd (widths 1..128 powers of two, with and without carry-out) vs bvadd and the (w+1)-th sum bit; Mux vs ite for bit and integer choices with broadcasting; "
+    "Clip2K vs clamp for all k at 8/16 bits and boundary k at 32/64 bits (all k thorough); LongDivision signed/unsigned at 4 and 8 bits vs the floored-division lemma. "
+    "All operands are symbolic; unsat = exact for every operand at that width. Wider long division is outside the bound (solver does not finish).",
+    G_NOTE, "SMT (z3 QF_BV) equivalence of the real generated circuit vs bit-vector spec, all operands symbolic", "DESIGN.md §5 C17")
+
 _pending = "check not built yet in this session; see DESIGN.md for the plan"
-for p in ["C01","C02","C03","C04","C05","C06","C07","C08","C09","C10","C13","C14","C15","C17","C18"]:
+for p in ["C01","C02","C03","C04","C05","C06","C07","C08","C09","C10","C13","C14","C15","C18"]:
     NOT_APPLICABLE[p] = _pending
 NOT_APPLICABLE["C11"] = "API histories over Arc/AtomicRefCell/HashMap state with format!-built errors: not encodable (Kani: 580 s/15 GB on a 3-call concrete history); a hand model would not be the real code"
 NOT_APPLICABLE["C12"] = "serde_json/typetag parsing of several-hundred-byte strings followed by the graph-building API: out of reach of bit-precise symbolic execution; round-trip equality has no input to quantify besides the program"
